@@ -224,6 +224,17 @@ pub fn vx_yield_now(w: &mut World)
     ensures same_ambient(*old(w), *final(w))
 { }
 
+/// tokio::task::yield_now().await / tokio::time::sleep(d).await written in framework code: a suspension point like any other -
+/// the future can be dropped here by an enclosing timeout (rule T cuts at Await markers), and other tasks run meanwhile.
+#[verifier::external_body]
+pub fn yield_now(w: &mut World)
+    ensures final(w).log() == old(w).log().push(Eff::Await(AwaitKind::Other)), same_ambient(*old(w), *final(w))
+{ }
+#[verifier::external_body]
+pub fn sleep(d: Duration, w: &mut World)
+    ensures final(w).log() == old(w).log().push(Eff::Await(AwaitKind::Other)), same_ambient(*old(w), *final(w))
+{ }
+
 /// tokio's select! without `biased;` starts polling at a random branch (A3).
 #[verifier::external_body]
 pub fn vx_random_start(n: usize) -> (r: usize) ensures r < n { 0 }
